@@ -81,6 +81,13 @@ fn response(q: &[u8], tc: bool, tcp: bool, pad: usize) -> Vec<u8> {
 }
 
 fn junk(kind: &str, q: &[u8]) -> Vec<u8> {
+    if let Some(k) = kind.strip_prefix("tc") {
+        let mut j = junk(k, q);
+        if j.len() > 2 {
+            j[2] |= 0x02;
+        }
+        return j;
+    }
     let r = response(q, false, false, 0);
     let qe = question_end(q).unwrap_or(r.len().min(17));
     let mut j = r.clone();
@@ -175,6 +182,19 @@ fn udp_server(sock: UdpSocket, sh: Arc<Shared>) {
         for (delay, what) in items {
             let payload: Option<Vec<u8>> = if what == "resp" {
                 Some(response(&q, false, false, 0))
+            } else if what == "resp2" {
+                // two answer records (a longer message)
+                let mut r = response(&q, false, false, 0);
+                let qe = question_end(&q).unwrap_or(12);
+                let rec = r[qe..].to_vec();
+                r.extend_from_slice(&rec);
+                r[7] = 2;
+                Some(r)
+            } else if what == "resplie" {
+                // announces two answers, carries one
+                let mut r = response(&q, false, false, 0);
+                r[7] = 2;
+                Some(r)
             } else if what == "resptc" {
                 Some(response(&q, true, false, 0))
             } else if let Some(n) = what.strip_prefix("big") {
@@ -402,7 +422,8 @@ macro_rules! run_async_queries {
 pub fn op_net(a: &[&str]) -> String {
     // net <client> <strategy> <qt|-> <life> <edns|-> <rd> <bufsize> <queries>
     let client_kind = a[0];
-    let strategy = match a[1] {
+    let noudp = a[1].ends_with("+noudp");
+    let strategy = match a[1].trim_end_matches("+noudp") {
         "tcp" => ProtocolStrategy::Tcp,
         "notcp" => ProtocolStrategy::NoTcp,
         _ => ProtocolStrategy::Udp,
@@ -443,7 +464,15 @@ pub fn op_net(a: &[&str]) -> String {
     });
     let h1 = {
         let s = sh.clone();
-        std::thread::spawn(move || udp_server(udp, s))
+        if noudp {
+            // nothing listens on the UDP port: the kernel answers with ICMP port unreachable
+            drop(udp);
+            std::thread::spawn(move || {
+                let _ = s;
+            })
+        } else {
+            std::thread::spawn(move || udp_server(udp, s))
+        }
     };
     let h2 = {
         let s = sh.clone();
